@@ -41,10 +41,11 @@ fn err_name(e: &ReaderError) -> &'static str {
 /// A wrong report turns into the name `err:badreport`, which no model output matches.
 fn err_report<R: Read>(rd: &TokenReader<R>, e: &ReaderError) -> &'static str {
     let name = err_name(e);
-    let what = match name { "err:io" => "failed to read past position", "err:full" => "max buffer size exceeded at position", _ => "unexpected end of file at position" };
+    // message TEXTS are free to change (no property speaks about them): the report must carry the reader's position,
+    // mention it, and expose a source exactly for I/O errors
     let shown = format!("{}", e);
     let src = std::error::Error::source(e).is_some();
-    if e.position() != rd.position() || shown != format!("{}: {}", what, e.position()) || src != (name == "err:io") {
+    if e.position() != rd.position() || !shown.contains(&e.position().to_string()) || src != (name == "err:io") {
         return "err:badreport";
     }
     name
